@@ -96,9 +96,46 @@ func (ew *ErrorWriter) SafeWrite(b []byte) int {
 	return n
 }
 
+// maxPrealloc bounds how much is allocated on the word of a count or length read
+// from the stream before the data it announces has actually arrived.
+const maxPrealloc = 64 << 10
+
+// CapCount limits a count read from the stream to a modest preallocation hint; decoders
+// grow their containers as elements arrive.
+func CapCount(n uint32) uint32 {
+	if n > 64 {
+		return 64
+	}
+	return n
+}
+
+// ReadBytes reads a length-prefixed byte array. The buffer grows as data arrives, so a
+// corrupt length prefix cannot make it allocate more than the stream delivers.
+func ReadBytes(r *ErrorReader) []byte {
+	return readN(r, ReadUint32(r))
+}
+
+func readN(r *ErrorReader, n uint32) []byte {
+	if n <= maxPrealloc {
+		data := make([]byte, n)
+		_, _ = r.Read(data)
+		return data
+	}
+	data := make([]byte, 0, maxPrealloc)
+	for uint32(len(data)) < n && r.Err == nil {
+		m := n - uint32(len(data))
+		if m > maxPrealloc {
+			m = maxPrealloc
+		}
+		data = append(data, make([]byte, m)...)
+		_, _ = r.Read(data[uint32(len(data))-m:])
+	}
+	return data
+}
+
 func ReadString(r *ErrorReader) string {
-	data := make([]byte, ReadUint32(r))
-	if _, err := r.Read(data); err != nil {
+	data := readN(r, ReadUint32(r))
+	if r.Err != nil {
 		return ""
 	}
 	return string(data)
